@@ -8,6 +8,8 @@ from ..norm import n, P, C, V, ANY, match, find_all
 from . import common
 
 INDEX_FNS = ("::index", "::index_mut")
+# slice methods that only return views / facts of their receiver (they write nothing)
+PURE_VIEW_FNS = ("::len", "::split_at", "::split_at_mut", "::is_empty", "::as_ptr", "::get", "::get_mut", "::first", "::last", "::iter")
 
 
 def variant_envs(F):
@@ -266,7 +268,7 @@ def text_writer(F):
             else:
                 # any other callee receiving (a view of) the output buffer mutably
                 for x in a:
-                    if window(x, P(2)) is not None and not path.endswith(INDEX_FNS + ("::len", "::from_slice")):
+                    if window(x, P(2)) is not None and not path.endswith(INDEX_FNS + PURE_VIEW_FNS + ("::from_slice",)):
                         unknown.append(path)
         for (bb, pl, v) in p.stores:
             pe = n(pl)
@@ -320,7 +322,7 @@ def binary_writer(F):
                     writes.append((w[0], w[1], "copy", src_field(a[1], hf), None))
             else:
                 for x in a:
-                    if window(x, P(2)) is not None and not path.endswith(INDEX_FNS + ("::len",)):
+                    if window(x, P(2)) is not None and not path.endswith(INDEX_FNS + PURE_VIEW_FNS):
                         unknown.append(path)
         for (bb, pl, v) in p.stores:
             pe = n(pl)
